@@ -21,7 +21,9 @@ if os.path.exists(rf):
             if name.endswith("patch.diff"):
                 mp = os.path.join(os.path.dirname(path), "meta.json")
                 if os.path.exists(mp):
-                    needs = json.load(open(mp)).get("needs_to_manifest", "")[:140]
+                    needs = json.load(open(mp)).get("needs_to_manifest", "")
+                    needs = re.sub(r"^#+ *What (it|is) needs?(ed)?( for it)? to manifest[^\n]*", "", needs, flags=re.I).strip()
+                    needs = re.sub(r"\s+", " ", needs)[:160]
             else:
                 m = re.search(r"^# needs: (.*)$", open(path).read(1500), re.M)
                 needs = m.group(1)[:140] if m else ""
